@@ -51,6 +51,8 @@ type cacheFacts struct {
 	initFlagStoreLast         bool
 	initUnlockDeferred        bool
 	initedWritersOK           bool
+	poolPutLast               bool
+	poolPutSites              int
 	notes                     []string
 	lenInc, hiDst, hiSrc      int
 	loDst, setOff             int
@@ -687,6 +689,94 @@ func (f *cacheFacts) checkFinder(where string, fd *ast.FuncDecl) error {
 	return nil
 }
 
+// checkPoolPuts: the sync.Pool contract side the code must keep — an object goes back to a pool only after its
+// last use.  In every function that takes from a pool (x.Get()) every x.Put(v) must be deferred, or no identifier
+// holding v (v itself or a variable assigned from / to it) may be mentioned after the Put statement.
+func (f *cacheFacts) checkPoolPuts(where string, fd *ast.FuncDecl) {
+	hasGet := false
+	type put struct {
+		call     *ast.CallExpr
+		deferred bool
+	}
+	var puts []put
+	deferredCalls := map[*ast.CallExpr]bool{}
+	ast.Inspect(fd.Body, func(n ast.Node) bool {
+		switch s := n.(type) {
+		case *ast.DeferStmt:
+			deferredCalls[s.Call] = true
+		case *ast.CallExpr:
+			if se, ok := s.Fun.(*ast.SelectorExpr); ok {
+				if se.Sel.Name == "Get" && len(s.Args) == 0 {
+					hasGet = true
+				}
+				if se.Sel.Name == "Put" && len(s.Args) == 1 {
+					puts = append(puts, put{s, deferredCalls[s]})
+				}
+			}
+		}
+		return true
+	})
+	if !hasGet || len(puts) == 0 {
+		return
+	}
+	for _, pt := range puts {
+		f.poolPutSites++
+		if pt.deferred {
+			continue
+		}
+		root := cacheRootIdent(pt.call.Args[0])
+		if root == "" {
+			f.poolPutLast = false
+			f.note("%s: %s(%s): cannot follow the returned object", where, cacheExprStr(pt.call.Fun), cacheExprStr(pt.call.Args[0]))
+			continue
+		}
+		T := map[string]bool{root: true}
+		for changed := true; changed; {
+			changed = false
+			ast.Inspect(fd.Body, func(n ast.Node) bool {
+				as, ok := n.(*ast.AssignStmt)
+				if !ok || len(as.Lhs) != len(as.Rhs) {
+					return true
+				}
+				for i := range as.Lhs {
+					id, ok := as.Lhs[i].(*ast.Ident)
+					if !ok {
+						continue
+					}
+					if !T[id.Name] && cacheMentionsIdent(as.Rhs[i], T) {
+						T[id.Name] = true
+						changed = true
+					}
+					if T[id.Name] {
+						// v = w.(T): w is the same object
+						r := as.Rhs[i]
+						if ta, ok := r.(*ast.TypeAssertExpr); ok {
+							r = ta.X
+						}
+						if rid, ok := r.(*ast.Ident); ok && !T[rid.Name] {
+							T[rid.Name] = true
+							changed = true
+						}
+					}
+				}
+				return true
+			})
+		}
+		end := pt.call.End()
+		used := ""
+		ast.Inspect(fd.Body, func(n ast.Node) bool {
+			if id, ok := n.(*ast.Ident); ok && T[id.Name] && id.Pos() > end && used == "" {
+				used = id.Name
+			}
+			return true
+		})
+		if used != "" {
+			f.poolPutLast = false
+			f.note("%s: %s is used after %s(%s) returned it to the pool", where, used, cacheExprStr(pt.call.Fun), cacheExprStr(pt.call.Args[0]))
+		}
+	}
+}
+
 func (f *cacheFacts) checkInit(fns map[string]*ast.FuncDecl, all []*ast.FuncDecl) {
 	ih, ih2 := fns["initHandle"], fns["initHandle2"]
 	if ih == nil || ih2 == nil {
@@ -832,7 +922,7 @@ func genCache(p *pkgInfo) (string, string, error) {
 	}
 	f := &cacheFacts{noInplace: true, storeFresh: true, storeLast: true, recheck: true, lockBalanced: true,
 		noForeignUnderLock: true, storeSitesOnlyLoaders: true, entryKeyed: true,
-		initDoubleChecked: true, initFlagStoreLast: true, initUnlockDeferred: true, initedWritersOK: true}
+		initDoubleChecked: true, initFlagStoreLast: true, initUnlockDeferred: true, initedWritersOK: true, poolPutLast: true}
 	var firstErr error
 	keep := func(err error) {
 		if err != nil && firstErr == nil {
@@ -850,6 +940,7 @@ func genCache(p *pkgInfo) (string, string, error) {
 		if recv == "" {
 			byName[nm] = fd
 		}
+		f.checkPoolPuts(where, fd)
 		if recv == "atomicRtidFnSlice" || cachePrimitive[nm] {
 			continue // the atomic primitives themselves
 		}
@@ -924,6 +1015,7 @@ func genCache(p *pkgInfo) (string, string, error) {
 	fmt.Fprintf(&b, "(* the inserted entry is {searched key, value} *)\nDefinition entry_keyed : bool := %s.\n", cacheB2c(f.entryKeyed))
 	fmt.Fprintf(&b, "(* initHandle: atomic load of inited, then initHandle2: Lock, re-check, init, atomic store as the last statement, deferred Unlock *)\nDefinition init_double_checked : bool := %s.\nDefinition init_flag_store_last : bool := %s.\nDefinition init_unlock_deferred : bool := %s.\nDefinition inited_writers_ok : bool := %s.\n\n",
 		cacheB2c(f.initDoubleChecked), cacheB2c(f.initFlagStoreLast), cacheB2c(f.initUnlockDeferred), cacheB2c(f.initedWritersOK))
+	fmt.Fprintf(&b, "(* sync.Pool users (sideEncode, sideDecode, ...): every Put is deferred or is the last use of the object *)\nDefinition pool_put_after_last_use : bool := %s.\nDefinition pool_put_sites : nat := %d.\n\n", cacheB2c(f.poolPutLast), f.poolPutSites)
 	b.WriteString("(* sorted insert: sp2 := make(T, len(sp)+ins_len_inc); copy(sp2[idx+ins_hi_dst:], sp[idx+ins_hi_src:]); copy(sp2[ins_lo_dst:], sp[:idx]); sp2[idx+ins_set] = e *)\n")
 	fmt.Fprintf(&b, "Definition ins_len_inc : nat := %d.\nDefinition ins_hi_dst : nat := %d.\nDefinition ins_hi_src : nat := %d.\nDefinition ins_lo_dst : nat := %d.\nDefinition ins_set : nat := %d.\n\n", f.lenInc, f.hiDst, f.hiSrc, f.loDst, f.setOff)
 	b.WriteString("(* binary search: h = (i+j) >> find_shift; if s[h].rtid < k then i = h + find_lo_inc else j = h; found iff i < len && s[i].rtid == k *)\n")
